@@ -1,0 +1,21 @@
+//go:build verif
+
+// Contracts for contract-based deductive verification (see /verif/DESIGN.md).
+// Comment-only file: it contributes no code to any build.
+
+package quic
+
+// ---------------------------------------------------------------- C14: one sequence-number space per connection
+// Every message that goes out on the datagram path of one connection draws its
+// sequence number from the single per-connection counter, whichever handle sends
+// it; otherwise segments of two messages share a reassembly buffer at the receiver.
+
+//@ func (*datagram).Write
+//@   props C14
+//@   requires d.t != nil && d.t.txBytesCounter != nil
+//@   assert call SendTo: arg1 == d.t.sequenceNumber && d.t.sequenceNumber == (old(d.t.sequenceNumber) + 1) % 4294967296
+
+//@ func (*Transport).WriteUnreliable
+//@   props C14
+//@   requires t.txBytesCounter != nil
+//@   assert call SendTo: arg1 == t.sequenceNumber && t.sequenceNumber == (old(t.sequenceNumber) + 1) % 4294967296
